@@ -107,6 +107,23 @@ def _arc_obligations(run, ix):
         if not ok:
             run.violation("A1", f.where, f"arc_center's centre is not the circumcentre of its three control points ({dim}D)", key=key_of("C14-A1", dim))
 
+    # ---------------- A3 length of an arc
+    run.rule("A3", "Arc.length == span * radius (2 pi radius for a closed circle): the length of a curve does not depend on whether it is stored as an arc or as segments")
+    from ..alg import Namespace, PyHook
+    fl = ix.func("trimesh.path.entities:Arc.length")
+    S_, R_ = sp.symbols("span radius", positive=True)
+    for closed, want in ((False, S_ * R_), (True, 2 * sp.pi * R_)):
+        it = Interp(ix)
+        me = Namespace("Arc", closed=closed, center=PyHook(lambda *a, **k: Namespace("ArcInfo", span=S_, radius=R_)))
+        try:
+            got = it.call(fl, [me, symbols_array("v", (3, 2))])
+        except Unsupported as e:
+            raise AnalysisError(f"E3 cannot translate Arc.length: {e}")
+        ok = sp.simplify(sp.sympify(got) - want) == 0
+        run.obligation("A3", fl.where, f"Arc.length (closed={closed}) == {want} (got {sp.simplify(sp.sympify(got))})", ok)
+        if not ok:
+            run.violation("A3", fl.where, f"Arc.length (closed={closed}) is {sp.simplify(sp.sympify(got))}, not {want}: Path.length then depends on how a curve is represented",
+                          key=key_of("C14-A3", closed))
     # ---------------- A2
     r, cx, cy = sp.symbols("r cx cy", real=True)
     st_, ct = sp.symbols("s_t c_t", real=True)
